@@ -6,7 +6,7 @@ import posixpath
 from hypothesis import strategies as st
 
 from vlib.framework import Check, Outcome
-from vlib.history import World
+from vlib.history import World, infra
 
 # --------------------------------------------------------------------------- probe settings
 # name -> (config path, candidate values, default as shipped).  Every probe is observable from outside (see BODY).
@@ -513,6 +513,9 @@ class C27(Check):
         world = World(tree_of(case), use_xdg=bool(case.get("user") and case["user"]["where"] == "xdg"))
         try:
             steps, rc, err = world.play(ops, READBACK)
+            if rc == "timeout" or (isinstance(rc, int) and rc in (-9, -15) and len(steps) < len(ops)):
+                out.excluded = "timeout-or-killed(machine too busy)"
+                return out
             if len(steps) < len(ops):
                 out.fail("driver stopped after %d/%d steps rc=%s: %s" % (len(steps), len(ops), rc, err[-300:]),
                          clause="driver-died")
@@ -535,6 +538,9 @@ class C27(Check):
 
     def judge(self, out, case, files, texts, op, res, fresh, i):
         kind = op["op"]
+        if infra(res):
+            out.label("step-not-compared:timeout")
+            return
         if "error" in res:
             out.fail("step %d %s failed: %s %s at %s" % (i, kind, res["error"], res["msg"], res.get("frame")),
                      clause="step-error", op=kind, exc=res["error"], frame=res.get("frame"))
@@ -618,6 +624,8 @@ class C27(Check):
             out.label("jinja-context-observed")
 
     def isolation(self, out, i, opname, p, rec, fres):
+        if infra(fres):
+            return
         if "error" in fres:
             out.fail("fresh lint of %s failed: %s" % (p, fres), clause="fresh-error", exc=fres["error"])
             return
